@@ -1256,12 +1256,33 @@ func runGraph(c *Case) lib.Result {
 				x := newExpectation(ps)
 				x.graph(0, c.Stages, c.Opts, nil)
 				want := expectedEvents(c, x)
+				wantBodies := 0
+				for uid, k := range x.kind {
+					if k == "lambda" || k == "call" {
+						wantBodies += x.execs[uid]
+					}
+				}
+				// until every expected invocation is there; given up after 10 s, or after 2 s without
+				// any new invocation once every node body of the run has been entered
 				deadline := time.Now().Add(10 * time.Second)
+				last, lastChange := -1, time.Now()
 				for time.Now().Before(deadline) {
 					s.mu.Lock()
 					n := len(s.evts)
 					s.mu.Unlock()
 					if n >= want {
+						break
+					}
+					if n != last {
+						last, lastChange = n, time.Now()
+					}
+					rr.mu.Lock()
+					bodies := 0
+					for _, recs := range rr.execs {
+						bodies += len(recs)
+					}
+					rr.mu.Unlock()
+					if bodies >= wantBodies && time.Since(lastChange) > 2*time.Second {
 						break
 					}
 					time.Sleep(2 * time.Millisecond)
